@@ -246,7 +246,7 @@ fn build_lib(rng: &mut Rng, shape: &str, n: usize, max_refs: usize, nested: bool
 
 /// JSON form of a `Tree`: {"n": kind, "s": text / key / content, "t": reference text / language,
 /// "w": reference type, "id": id, "c": children}
-fn jnode(kind: &str, s: &str, c: Vec<Value>) -> Value {
+pub fn jnode(kind: &str, s: &str, c: Vec<Value>) -> Value {
     json!({"n": kind, "s": s, "c": c})
 }
 
@@ -325,9 +325,9 @@ impl TreeGen {
     }
 }
 
-const TREE_MODES: &[&str] = &["valid", "leafkids", "innerdoc", "mixed", "rootless"];
+pub const TREE_MODES: &[&str] = &["valid", "leafkids", "innerdoc", "mixed", "rootless"];
 
-fn gen_tree(rng: &mut Rng, mode: &str) -> Value {
+pub fn gen_tree(rng: &mut Rng, mode: &str) -> Value {
     let (leaf_kids, inner_doc) = match mode {
         "leafkids" => (2, 0),
         "innerdoc" => (0, 1),
@@ -363,7 +363,7 @@ fn jinlines(s: &str) -> Vec<GraphInline> {
         .collect()
 }
 
-fn jtree(v: &Value) -> Tree {
+pub fn jtree(v: &Value) -> Tree {
     let s = v["s"].as_str().unwrap_or("");
     let node = match v["n"].as_str().unwrap_or("leaf") {
         "doc" => Node::Document(Key::from_file_name(s)),
